@@ -354,8 +354,10 @@ func toSMTPErr(err error) *smtp.SMTPError {
 	}
 	ctxEnchCode, ok := ctxInfo["smtp_enchcode"].(exterrors.EnhancedCode)
 	// Errors relayed from servers that do not use enhanced codes have it
-	// unset, keep the generic one in this case.
-	if ok && smtp.EnhancedCode(ctxEnchCode) != smtp.EnhancedCodeNotSet {
+	// unset, keep the generic one in this case. The same goes for a code
+	// without a class (0.x.y): it cannot be used as the Status of a DSN,
+	// the report would not be generated at all.
+	if ok && ctxEnchCode[0] != 0 {
 		res.EnhancedCode = smtp.EnhancedCode(ctxEnchCode)
 	}
 	ctxMsg, ok := ctxInfo["smtp_msg"].(string)
@@ -366,7 +368,7 @@ func toSMTPErr(err error) *smtp.SMTPError {
 	if smtpErr, ok := err.(*smtp.SMTPError); ok {
 		log.Printf("plain SMTP error returned, this is deprecated")
 		res.Code = smtpErr.Code
-		if smtpErr.EnhancedCode != smtp.EnhancedCodeNotSet {
+		if smtpErr.EnhancedCode[0] != 0 {
 			res.EnhancedCode = smtpErr.EnhancedCode
 		}
 		res.Message = smtpErr.Message
